@@ -1402,6 +1402,29 @@ func init() {
 		if p.Sched.YieldProb == 0 {
 			p.Sched = SchedCfg{YieldProb: Pick(r, []float64{0, 0.2, 0.5}), StallMax: Pick(r, []time.Duration{0, 0, p.H / 50})}
 		}
+		if !p.judges("C07") {
+			p.NoJudge = append(p.NoJudge, "C07") // only the outsider-free restart variant is C07's business
+		}
+		return p
+	}
+}
+
+func init() {
+	// One instance, no outsider, no stop: it leads, the application cancels the context it gave
+	// to Start and calls Start again at once; the goroutine that reacts to the cancellation is slow
+	// (it gets going only after the old record has expired and the new run leads again). The new
+	// run's leader must be left alone.
+	families["c07restart"] = func(r *Rng) *Plan {
+		p := &Plan{Judge: []string{"C07", "C08", "C19"}}
+		p.H = Pick(r, []time.Duration{100 * ms, 200 * ms, 500 * ms})
+		p.TTL = Pick(r, []time.Duration{3 * p.H, 4 * p.H})
+		p.Insts = []InstCfg{{ID: "n1", Group: "g1", PromoteMode: Pick(r, []string{"block", "return"}), V: Pick(r, []time.Duration{0, p.H})}}
+		p.Store = healthyStore(r, p.H/2)
+		t := r.Dur(2*p.H, 6*p.H)
+		p.Actions = []Action{{At: 0, Kind: AStart, Inst: 0}, {At: t, Kind: ACancelStart, Inst: 0}, {At: t + Pick(r, []time.Duration{0, 0, ms, 50 * ms}), Kind: AStart, Inst: 0}}
+		p.Until = t + 3*p.TTL + 6*sec
+		p.Tail = 0
+		p.Sched = SchedCfg{YieldProb: 0.8, StallMax: p.TTL + 3*sec, StallSites: []string{"Start.func", "becomeFollower"}, StallUnknown: true}
 		return p
 	}
 }
